@@ -71,10 +71,10 @@ def run(tier, seed):
                                           dict(replay, model=ml[:300]), found_input=True)
             # wrong-parity degree must be refused
             if has_deg:
-                for _ in range(2):
+                for rep in range(4):
                     args = G.sample_args(rng, name, cb, tier)
                     args["degree"] = int(args["degree"]) + 1
-                    out = G.call(PL, name, args, True, False, cb)
+                    out = G.call(PL, name, args, True, False, cb, positional_degree=(rep % 2 == 1))   # keyword and positional form
                     ctx.count("wrong-parity-degree")
                     ctx.case([name, args, "wrongdeg", cb], True, {"generator": name, "args": args, "wrong_parity_degree": True, "status": out["status"]})
                     ml = drv.ask("gen.erf %d %d 1 0 %d 1 1 1,1" % (par, args["degree"], int(cb)))
